@@ -68,6 +68,7 @@ import (
 	"regexp"
 	"runtime"
 	"strconv"
+	"strings"
 	"sync"
 	"sync/atomic"
 	"testing"
@@ -250,6 +251,22 @@ func received(gc *e2e.GatedConn) (ids []int, states_ []string) {
 		}
 	}
 	return
+}
+
+// strays returns the ids whose bytes reached the backend in a frame that is not a plugin
+// message of the state the backend was in (e.g. a configuration-phase packet id arriving
+// after the backend was told that configuration is over), with a description of the frame.
+func strays(gc *e2e.GatedConn) map[int]string {
+	out := map[int]string{}
+	for _, rc := range gc.Log() {
+		if rc.Packet != nil {
+			continue
+		}
+		if id := idOf(rc.Payload); id >= 0 {
+			out[id] = fmt.Sprintf("frame #%d read in state %s with packet id 0x%02x (%d bytes), not a plugin message there", rc.Seq, rc.State, rc.ID, len(rc.Payload))
+		}
+	}
+	return out
 }
 
 // awaitMarker waits until message m arrived at gc.
@@ -542,6 +559,16 @@ func (s *sess) firstJoinAndSwitch() {
 	grace(gc2, sent, judged)
 	got, _ = received(gc2)
 	fs = judge("config-switch", sent, got, judged, nil)
+	// a "never delivered" message whose bytes did arrive, but only after the proxy had
+	// acknowledged the end of configuration to the backend, is a different failure
+	if st := strays(gc2); len(st) > 0 {
+		for i := range fs {
+			if m, ok := fs[i].extra["message"].(sentMsg); ok && st[m.ID] != "" && strings.HasSuffix(fs[i].sig, "-never-delivered") {
+				fs[i].sig = "config-switch:early-message-reached-backend-after-configuration-was-acknowledged"
+				fs[i].what = fmt.Sprintf("message %d, sent while the client was in configuration, reached the backend only after the proxy had acknowledged the backend's FinishedUpdate: %s", m.ID, st[m.ID])
+			}
+		}
+	}
 	s.report("config-switch", fs, sent, got)
 	// anything of the switch that leaked to the old backend?
 	old, _ := received(gc1)
